@@ -46,12 +46,14 @@ class DB:
                 i["crate"] = crate
                 self.impls.append(i)
             for t in d["traits"]:
+                t["crate"] = crate
                 self.traits[t["path"]] = t
             for s in d["statics"]:
                 s["crate"] = crate
                 self.statics.append(s)
             for c in d["consts"]:
                 self.consts[c["path"]] = c
+        self._canon = {}
         # impl lookup: (trait, self adt path) -> impl
         self.impl_of = {}
         for i in self.impls:
@@ -60,6 +62,30 @@ class DB:
             if st["k"] == "ref" and st["to"]["k"] == "adt":
                 key_ty = "&" + st["to"]["path"]
             self.impl_of.setdefault((i.get("trait"), key_ty), []).append(i)
+
+    def canon(self, path):
+        """Anchors are public API names; the crate-internal module path in front of them is not part
+        of the API.  A path that is not found is resolved to the unique type/trait of `average`
+        with the same final name (so moving `Mean` to another private module changes nothing)."""
+        if path is None or path in self.adts or path in self.traits:
+            return path
+        c = self._canon.get(path)
+        if c is None:
+            name = path.split("::")[-1]
+            cands = [p for p in list(self.adts) + list(self.traits)
+                     if p.split("::")[-1] == name and self._crate_of(p) == "average" and "{" not in p]
+            c = cands[0] if len(cands) == 1 else path
+            self._canon[path] = c
+        return c
+
+    def _crate_of(self, p):
+        a = self.adts.get(p)
+        if a is not None:
+            return a.get("crate")
+        t = self.traits.get(p)
+        if t is not None:
+            return t.get("crate", "average")
+        return None
 
     def features(self, crate="average"):
         out = set()
@@ -70,6 +96,11 @@ class DB:
         return out
 
     def find_impl_method(self, trait, adt_path, name):
+        trait = self.canon(trait)
+        if adt_path.startswith("&"):
+            adt_path = "&" + self.canon(adt_path[1:])
+        else:
+            adt_path = self.canon(adt_path)
         for i in self.impl_of.get((trait, adt_path), []):
             for it in i["items"]:
                 if it["name"] == name:
@@ -84,6 +115,7 @@ class DB:
         return None
 
     def methods_of(self, adt_path):
+        adt_path = self.canon(adt_path)
         out = {}
         for (tr, ty), impls in self.impl_of.items():
             if ty != adt_path:
